@@ -8,7 +8,7 @@
 //! search directories, and static disk faults (unreadable file, directory or dangling symlink
 //! where a file is expected).
 
-use crate::common::{Probes, Prop, RunReport};
+use crate::common::{KnownFinding, Probes, Prop, RunReport};
 use crate::prng::{fnv1a, mix, Rng, FNV_INIT};
 use crate::sched::{self, ActorSpec, Event, Policy, StepCtx, Violation};
 use crate::seam::{self, Action, Actor, Decision, Op, OpKind, World};
@@ -86,7 +86,8 @@ pub struct Workload {
     pub nested_mod: Vec<usize>,
     /// other places an include can hide: (kind, include index); kind 1 = inside the helper
     /// of a nested mod, inside a second nested mod; 2 = inside an old-style defmacro body;
-    /// 3 = inside a nested mod in a helper that nothing calls
+    /// 3 = inside a nested mod in a helper that nothing calls; 4 = inside the quasi-quoted
+    /// module an old-style macro expands to
     #[serde(default)]
     pub hidden: Vec<(u8, usize)>,
     /// search directories that are reached through a symlinked directory and `..`
@@ -101,6 +102,14 @@ pub struct Workload {
     /// (`*v<d>*`, next to the run directory), like the dialect pseudo-files' names
     #[serde(default)]
     pub starred: Vec<u8>,
+    /// how each search directory is spelt on the search path (indexed by directory id):
+    /// 0 plainly, 1 with a trailing slash, 2 as an absolute path, 3 with a leading "./"
+    #[serde(default)]
+    pub dir_forms: Vec<u8>,
+    /// include files (by index) of which a different copy lies next to the main program,
+    /// where an entry point that also searches the program's own directory would find it
+    #[serde(default)]
+    pub beside_main: Vec<usize>,
 }
 
 /// where the files of search directory `d` really live
@@ -118,6 +127,20 @@ fn real_dir(w: &Workload, d: u8) -> String {
 /// `r/d<d>/lnk/..` where `lnk` is a symlink to `r/x<d>/sub` - the kernel resolves that to
 /// `r/x<d>`, a textual clean-up of the name to `r/d<d>`, which is another directory
 fn search_dir(w: &Workload, d: u8) -> String {
+    let plain = plain_dir(w, d);
+    if w.starred.contains(&d) {
+        return plain;
+    }
+    match w.dir_forms.get(d as usize).copied().unwrap_or(0) {
+        1 => format!("{}/", plain),
+        2 => format!("{}/{}", seam::root(), plain),
+        3 => format!("./{}", plain),
+        _ => plain,
+    }
+}
+
+/// the spelling the seam reports for files under search directory `d` (its normal form)
+fn plain_dir(w: &Workload, d: u8) -> String {
     if w.starred.contains(&d) {
         format!("*v{}*", d)
     } else if w.symlinked.contains(&d) {
@@ -194,6 +217,16 @@ pub fn render_main(w: &Workload) -> String {
                         n = inc.name
                     ));
                     uses.push(format!("(addk{} X)", i));
+                }
+                4 => {
+                    // an old-style macro whose *expansion* is a module with an include:
+                    // the include only exists once the macro has been expanded
+                    s.push_str(&format!(
+                        "  (defmacro mk{i} () (qq (mod (Y) (include {n}) (c Y K{i}))))\n",
+                        i = i,
+                        n = inc.name
+                    ));
+                    uses.push(format!("(a (mk{}) (list X))", i));
                 }
                 _ => {
                     s.push_str(&format!(
@@ -276,6 +309,12 @@ pub fn setup_dir(w: &Workload) {
             place(&p, *k, &data_content(dt.kind, *d));
         }
     }
+    for i in w.beside_main.iter() {
+        if let Some(inc) = w.incs.get(*i) {
+            let p = format!("{}/{}", DIR, inc.name);
+            place(&p, REAL, render_inc(w, *i, 55).as_bytes());
+        }
+    }
     for i in w.overlay.iter() {
         if let Some(inc) = w.incs.get(*i) {
             let p = format!("{}/{}", OVERLAY, inc.name);
@@ -285,23 +324,94 @@ pub fn setup_dir(w: &Workload) {
     fs::write(MAIN, render_main(w)).unwrap();
 }
 
+/// lexical normal form of a path below a real directory: no ".", no "x/.." (the names of
+/// the pools never step through a symlink)
+fn tidy(dir: &str, name: &str) -> String {
+    let mut out: Vec<&str> = Vec::new();
+    for c in name.split('/') {
+        match c {
+            "" | "." => {}
+            ".." if out.last().map(|l| *l != "..").unwrap_or(false) => {
+                out.pop();
+            }
+            c => out.push(c),
+        }
+    }
+    format!("{}/{}", dir, out.join("/"))
+}
+
 fn denied_paths(w: &Workload) -> Vec<String> {
     let mut v = Vec::new();
     for inc in w.incs.iter() {
         for (d, k) in inc.copies.iter() {
             if *k == DENIED {
-                v.push(format!("{}/{}", search_dir(w, *d), inc.name));
+                v.push(tidy(&plain_dir(w, *d), &inc.name));
             }
         }
     }
     for dt in w.datas.iter() {
         for (d, k) in dt.copies.iter() {
             if *k == DENIED {
-                v.push(format!("{}/{}", search_dir(w, *d), dt.name));
+                v.push(tidy(&plain_dir(w, *d), &dt.name));
             }
         }
     }
     v
+}
+
+// ---------------------------------------------------------------------------------------
+// known findings
+// ---------------------------------------------------------------------------------------
+
+pub const MACRO_EXPANSION_INCLUDE: &str = "C18-include-inside-old-style-macro-expansion";
+
+/// A violating run belongs to the listed finding iff the file that was read without being
+/// listed is exactly the include that this layout places inside the quasi-quoted module an
+/// old-style `defmacro` expands to (hidden kind 4), and the program refers to that include
+/// nowhere else.  Anything else that is read and not listed is still a violation.
+pub fn classify_known(w: &Workload, rep: &RunReport, known: &[KnownFinding]) -> Option<String> {
+    let v = rep.violation.as_ref()?;
+    if v.invariant != "C18.b-read-but-not-listed" {
+        return None;
+    }
+    if !known
+        .iter()
+        .any(|k| k.property == "C18" && k.id == MACRO_EXPANSION_INCLUDE && k.status == "open")
+    {
+        return None;
+    }
+    // the compile read "<path>", which ...
+    let path = v.message.split('"').nth(1)?;
+    for (kind, i) in w.hidden.iter() {
+        if *kind != 4 {
+            continue;
+        }
+        let inc = w.incs.get(*i)?;
+        let elsewhere = w
+            .main_refs
+            .iter()
+            .any(|r| matches!(r, Ref::Inc { i: j, .. } if j == i))
+            || w.nested_mod.contains(i)
+            || w.hidden.iter().any(|(k2, j)| *k2 != 4 && j == i)
+            || w
+                .incs
+                .iter()
+                .any(|o| o.refs.iter().any(|r| matches!(r, Ref::Inc { i: j, .. } if j == i)));
+        if elsewhere {
+            continue;
+        }
+        let hit = w
+            .search
+            .iter()
+            .any(|d| tidy(&plain_dir(w, *d), &inc.name) == path || tidy(&real_dir(w, *d), &inc.name) == path);
+        if hit {
+            return Some(format!(
+                "{}: an include inside the module that an old-style defmacro expands to is read by the compile and not listed",
+                MACRO_EXPANSION_INCLUDE
+            ));
+        }
+    }
+    None
 }
 
 // ---------------------------------------------------------------------------------------
@@ -353,14 +463,20 @@ pub fn generate(rng: &mut Rng, thorough: bool) -> Workload {
     // a third pool: names that begin like the dialect pseudo-files (`*standard-cl-21*`) but
     // are ordinary files
     let starry = rng.chance(1, 5);
-    let mut names: Vec<&str> = if starry {
+    // a fourth pool: names spelt relative to "here" (`./x`, `sub/../x`)
+    let dotty = !starry && rng.chance(1, 6);
+    let mut names: Vec<&str> = if dotty {
+        vec!["./a.clinc", "b.clinc", "./sub/c.clib", "sub/../d.clinc", "e.clinc", "./f.clib"]
+    } else if starry {
         vec!["*consts*", "a.clinc", "*k.clib", "sub/*s*.clinc", "b.clinc", "*standard-cl-20*", "c.clib"]
     } else if suffixy {
         vec!["a.clinc", "sub/a.clinc", "lib/sub/a.clinc", "b.clinc", "sub/b.clinc", "c.clib", "x/c.clib"]
     } else {
         vec!["a.clinc", "b.clinc", "c.clib", "sub/d.clinc", "e.clinc", "sub/f.clib", "g.clinc"]
     };
-    let mut dnames: Vec<&str> = if starry {
+    let mut dnames: Vec<&str> = if dotty {
+        vec!["./data.bin", "blob.hex", "sub/../t.sexp", "./sub/more.dat"]
+    } else if starry {
         vec!["*blob*.bin", "data.bin", "sub/*t*.sexp", "blob.hex"]
     } else if suffixy {
         vec!["data.bin", "sub/data.bin", "blob.hex", "x/blob.hex"]
@@ -447,7 +563,7 @@ pub fn generate(rng: &mut Rng, thorough: bool) -> Workload {
     }
     let mut hidden = Vec::new();
     if rng.chance(1, 4) {
-        let kind = rng.range(1, 3) as u8;
+        let kind = rng.range(1, 4) as u8;
         incs.push(Inc {
             name: ["hid.clinc", "sub/hid.clinc", "k.clib"][rng.below(3) as usize].to_string(),
             copies: gen_copies(rng, ndirs, false),
@@ -455,6 +571,11 @@ pub fn generate(rng: &mut Rng, thorough: bool) -> Workload {
         });
         hidden.push((kind, incs.len() - 1));
     }
+    let incs_len = incs.len();
+    let dotted: Vec<bool> = incs
+        .iter()
+        .map(|i| i.name.starts_with("./") || i.name.contains("/../"))
+        .collect();
     Workload {
         sigil: rng.below(SIGILS.len() as u64) as u8,
         ndirs,
@@ -478,6 +599,17 @@ pub fn generate(rng: &mut Rng, thorough: bool) -> Workload {
         },
         starred: if rng.chance(1, 6) {
             vec![rng.below(ndirs as u64) as u8]
+        } else {
+            vec![]
+        },
+        dir_forms: (0..ndirs)
+            .map(|_| if rng.chance(1, 4) { rng.range(1, 3) as u8 } else { 0 })
+            .collect(),
+        beside_main: if dotty && rng.chance(2, 3) {
+            // names spelt relative to "here" get their decoy where "here" would be
+            (0..incs_len).filter(|i| dotted[*i]).collect()
+        } else if ninc > 0 && rng.chance(1, 5) {
+            vec![rng.below(ninc as u64) as usize]
         } else {
             vec![]
         },
@@ -848,26 +980,54 @@ impl Policy for C18Policy {
                 }
             }
         }
-        // (b) every file read by the compile is listed
+        // (b) every file read by the compile is listed.  A mismatch about an include that
+        // only exists after the expansion of an old-style macro (hidden kind 4) is reported
+        // last, after clause (c), so that it can never mask another violation of the run.
+        let macro_incs: Vec<String> = self
+            .w
+            .hidden
+            .iter()
+            .filter(|(k, _)| *k == 4)
+            .filter_map(|(_, i)| self.w.incs.get(*i))
+            .flat_map(|inc| {
+                self.w
+                    .search
+                    .iter()
+                    .map(|d| tidy(&plain_dir(&self.w, *d), &inc.name))
+                    .collect::<Vec<_>>()
+            })
+            .collect();
+        let mut later: Option<Violation> = None;
         for p in self.reads.iter() {
             let id = ident(p);
             if id.is_none() || !listed_ids.contains(&id.unwrap()) {
-                return Err(viol(
+                let v = viol(
                     "C18.b-read-but-not-listed",
                     format!(
                         "the compile read {:?}, which the dependency listing {:?} does not name",
                         p, listed
                     ),
-                ));
+                );
+                if macro_incs.contains(p) {
+                    later.get_or_insert(v);
+                } else {
+                    return Err(v);
+                }
             }
         }
         // (c) no listed file is shadowed by a readable regular file earlier in the path
-        let dirs: Vec<String> = self.w.search.iter().map(|d| search_dir(&self.w, *d)).collect();
+        let dirs: Vec<String> = self
+            .w
+            .search
+            .iter()
+            .map(|d| search_dir(&self.w, *d).trim_end_matches('/').to_string())
+            .collect();
+        let plain: Vec<String> = self.w.search.iter().map(|d| plain_dir(&self.w, *d)).collect();
         for l in listed.iter() {
             if let Some(j) = dirs.iter().position(|d| l.starts_with(&format!("{}/", d))) {
-                let name = &l[dirs[j].len() + 1..];
-                for d in dirs[..j].iter() {
-                    let cand = format!("{}/{}", d, name);
+                let name = l[dirs[j].len() + 1..].trim_start_matches('/');
+                for d in plain[..j].iter() {
+                    let cand = tidy(d, name);
                     let readable = fs::metadata(&cand).map(|m| m.is_file()).unwrap_or(false)
                         && !self.denied.contains(&cand);
                     if readable {
@@ -881,6 +1041,9 @@ impl Policy for C18Policy {
                     }
                 }
             }
+        }
+        if let Some(v) = later {
+            return Err(v);
         }
         self.probes.hit("oracle_evaluated");
         self.probes.hit(&format!(
@@ -990,6 +1153,12 @@ fn drop_inc(w: &Workload, i: usize) -> Workload {
     }
     c.overlay.retain(|j| *j != i);
     for j in c.overlay.iter_mut() {
+        if *j > i {
+            *j -= 1;
+        }
+    }
+    c.beside_main.retain(|j| *j != i);
+    for j in c.beside_main.iter_mut() {
         if *j > i {
             *j -= 1;
         }
@@ -1128,6 +1297,16 @@ impl Prop for C18 {
             c.starred.clear();
             out.push(c);
         }
+        if w.dir_forms.iter().any(|f| *f != 0) {
+            let mut c = w.clone();
+            c.dir_forms.clear();
+            out.push(c);
+        }
+        if !w.beside_main.is_empty() {
+            let mut c = w.clone();
+            c.beside_main.clear();
+            out.push(c);
+        }
         if w.entry != 0 {
             let mut c = w.clone();
             c.entry = 0;
@@ -1141,6 +1320,9 @@ impl Prop for C18 {
             }
         }
         out
+    }
+    fn known_finding(w: &Workload, rep: &RunReport, known: &[KnownFinding]) -> Option<String> {
+        classify_known(w, rep, known)
     }
     fn runs_for_tier(thorough: bool) -> u64 {
         if thorough {
